@@ -103,6 +103,12 @@ func (p *Processor) handleCleanup(ctx context.Context) {
 				gs = p.gs
 			}
 
+			// A VAA injected before the first guardian set update has no guardian set to be
+			// counted against yet.
+			if gs == nil {
+				continue
+			}
+
 			hasSigs := len(s.signatures)
 			wantSigs := CalculateQuorum(len(gs.Keys))
 			quorum := hasSigs >= wantSigs
